@@ -14,6 +14,8 @@ at the end of each tick; `defer_tick_lazy` for `defer_tick` and tick cycles).  T
 import HvHydro.Model.Tick
 import HvHydro.Lemmas.Ops
 import HvHydro.Lemmas.Order
+import HvHydro.Gen.Lowering
+import HvHydro.Model.ExpectedLowering
 
 namespace HvHydro
 open List
@@ -177,6 +179,8 @@ theorem tick_state_no_leak (next : TTerm) (fuel fuel' : Nat) (tt : TTerm) (h : t
     evalAt next fuel tt (earlier ++ [now]) = evalAt next fuel' tt [now] := by
   induction tt with
   | batch i => simp [evalAt]
+  | constS v => simp [evalAt]
+  | firstTick v => simp [TTerm.stateless] at h
   | cyc => simp [TTerm.stateless] at h
   | deferTick t ih => simp [TTerm.stateless] at h
   | acrossFold i f t ih => simp [TTerm.stateless] at h
@@ -185,7 +189,7 @@ theorem tick_state_no_leak (next : TTerm) (fuel fuel' : Nat) (tt : TTerm) (h : t
     simp only [TTerm.stateless] at h
     simp only [evalAt, ih h]
   | chain a b iha ihb | crossSingleton a b iha ihb | joinHalf a b iha ihb | antiJoin a b iha ihb
-  | difference a b iha ihb =>
+  | difference a b iha ihb | chainFirst a b iha ihb =>
     simp only [TTerm.stateless, Bool.and_eq_true] at h
     simp only [evalAt, iha h.1, ihb h.2]
 
@@ -231,6 +235,8 @@ theorem aux_fuel (next : TTerm) : ∀ (fuel : Nat) (tt : TTerm) (fuel' : Nat) (h
     intro tt
     induction tt with
     | batch i => intros; simp [evalAt]
+    | constS v => intros; simp [evalAt]
+    | firstTick v => intros; simp [evalAt]
     | cyc =>
       intro fuel' hist h0 _
       have : hist = [] := List.eq_nil_of_length_eq_zero (Nat.le_zero.mp h0)
@@ -253,13 +259,15 @@ theorem aux_fuel (next : TTerm) : ∀ (fuel : Nat) (tt : TTerm) (fuel' : Nat) (h
       intro fuel' hist h0 h1
       simp only [evalAt, ih fuel' hist h0 h1]
     | chain a b iha ihb | crossSingleton a b iha ihb | joinHalf a b iha ihb | antiJoin a b iha ihb
-    | difference a b iha ihb =>
+    | difference a b iha ihb | chainFirst a b iha ihb =>
       intro fuel' hist h0 h1
       simp only [evalAt, iha fuel' hist h0 h1, ihb fuel' hist h0 h1]
   | succ f ihf =>
     intro tt
     induction tt with
     | batch i => intros; simp [evalAt]
+    | constS v => intros; simp [evalAt]
+    | firstTick v => intros; simp [evalAt]
     | cyc =>
       intro fuel' hist h0 h1
       cases fuel' with
@@ -290,7 +298,7 @@ theorem aux_fuel (next : TTerm) : ∀ (fuel : Nat) (tt : TTerm) (fuel' : Nat) (h
       intro fuel' hist h0 h1
       simp only [evalAt, ih fuel' hist h0 h1]
     | chain a b iha ihb | crossSingleton a b iha ihb | joinHalf a b iha ihb | antiJoin a b iha ihb
-    | difference a b iha ihb =>
+    | difference a b iha ihb | chainFirst a b iha ihb =>
       intro fuel' hist h0 h1
       simp only [evalAt, iha fuel' hist h0 h1, ihb fuel' hist h0 h1]
 
@@ -343,6 +351,113 @@ theorem acrossTicks_accumulates (next : TTerm) (fuel : Nat) (init : Val) (f : Va
   | cons x xs =>
     have h1 : List.take (xs.length + 1) (xs ++ [now]) = xs ++ [now] := List.take_of_length_le (by simp)
     simp [h1]
+
+/-! ### tick cycles with an initial value
+
+`Tick::cycle_with_initial(initial)` (also behind `sliced! { let mut x = use::state(|l| …) }`).  The terms
+`TTerm.optCycleWithInitial` / `TTerm.singCycleWithInitial` transcribe the library code of
+`create_source_with_initial` (optional.rs / singleton.rs; pinned by `cycle_sources_match`), the nodes they are made
+of are lowered as in the table (`ChainFirst -> chain_first_n(1)`, `DeferTick -> defer_tick_lazy()`,
+`SingletonSource` with / without `first_tick_only`, `CrossSingleton`; `lowering_table_matches`). -/
+
+/-- (T) the hydro_lang library functions that build tick cycles (`Tick::cycle`, `cycle_with_initial`,
+    `create_source_with_initial` of Optional and Singleton, `filter_if`, `is_some`, `into_singleton`, `zip`/`or` inside a
+    tick, `optional_first_tick`), re-extracted from the current source on every run, are the ones
+    `TTerm.optCycleWithInitial` / `TTerm.singCycleWithInitial` / `TTerm.cyc` were transcribed from -/
+theorem cycle_sources_match : Gen.library = Expected.library := rfl
+
+/-- `Optional::or` / `unwrap_or` (`chain_first_n(1)`): the first operand if it is non-null, else the second -/
+theorem tick_op_eq_list_op_or (next : TTerm) (fuel : Nat) (a b : TTerm) (hist : List TickIn) :
+    evalAt next fuel (.chainFirst a b) hist =
+      match evalAt next fuel a hist with
+      | [] => (evalAt next fuel b hist).take 1
+      | x :: _ => [x] := by
+  simp only [evalAt]
+  cases evalAt next fuel a hist <;> simp
+
+/-- `tick.singleton(v)` holds `v` in every tick; `tick.optional_first_tick(v)` holds `v` in the first tick and is null afterwards -/
+theorem singletonSource_every_tick_firstTick_only_first (next : TTerm) (fuel : Nat) (v : Val) (hist : List TickIn) (now : TickIn) :
+    evalAt next fuel (.constS v) (hist ++ [now]) = [v] ∧
+    evalAt next fuel (.firstTick v) (hist ++ [now]) = if hist = [] then [v] else [] := by
+  cases hist <;> simp [evalAt]
+
+/-- the guard of the initial value, `initial.filter_if(optional_first_tick(()).is_some())`: the initial value in the
+    first tick, null in every later tick — whatever the initial collection holds then -/
+theorem aux_initial_guard (next init : TTerm) (fuel : Nat) (hist : List TickIn) (now : TickIn) :
+    evalAt next fuel (TTerm.filterIf init (TTerm.isSome (.firstTick vUnit))) (hist ++ [now]) =
+      if hist = [] then evalAt next fuel init [now] else [] := by
+  cases hist with
+  | nil =>
+    simp [TTerm.filterIf, TTerm.isSome, TTerm.intoSingleton, evalAt, vSome, vNone, vUnit, vBool]
+    have h : (Val.key ∘ fun x : Val => x.pair (Val.int 1)) = id := by funext x; rfl
+    rw [h, List.map_id]
+  | cons x xs =>
+    simp [TTerm.filterIf, TTerm.isSome, TTerm.intoSingleton, evalAt, vNone, vUnit, vBool]
+
+/-- an `Optional` tick cycle with an initial value: the first tick reads the initial value; every later tick reads
+    EXACTLY what the previous tick sent (`take 1`: an optional holds at most one value) — in particular NULL when the
+    previous tick sent null, however non-null the initial collection still is.  The initial value is seen in the
+    first tick only. -/
+theorem optionalCycle_initial_only_first_tick (next init : TTerm) (fuel : Nat) (hist : List TickIn) (now : TickIn)
+    (hf : (hist ++ [now]).length ≤ fuel) :
+    evalAt next fuel (TTerm.optCycleWithInitial init) (hist ++ [now]) =
+      if hist = [] then (evalAt next fuel init [now]).take 1 else (evalAt next fuel next hist).take 1 := by
+  have hc := tickCycle_one_tick_later next fuel hist now hf
+  have hg := aux_initial_guard next init fuel hist now
+  unfold TTerm.optCycleWithInitial
+  rw [evalAt, hc, hg]
+  cases hist <;> simp
+
+/-- the clause a leaking initial value breaks: after a tick that sent NULL the cycle reads null -/
+theorem optionalCycle_null_stays_null (next init : TTerm) (fuel : Nat) (hist : List TickIn) (now : TickIn)
+    (hf : (hist ++ [now]).length ≤ fuel) (hne : hist ≠ []) (hnull : evalAt next fuel next hist = []) :
+    evalAt next fuel (TTerm.optCycleWithInitial init) (hist ++ [now]) = [] := by
+  rw [optionalCycle_initial_only_first_tick next init fuel hist now hf]
+  simp [hne, hnull]
+
+/-- a `Singleton` tick cycle with an initial value (`from_previous_tick.unwrap_or(initial)`): the initial value in
+    the first tick, afterwards what the previous tick sent — a singleton is never null, which is why no first-tick
+    guard is needed here -/
+theorem singletonCycle_initial_only_first_tick (next init : TTerm) (fuel : Nat) (hist : List TickIn) (now : TickIn)
+    (hf : (hist ++ [now]).length ≤ fuel) (hsing : hist ≠ [] → evalAt next fuel next hist ≠ []) :
+    evalAt next fuel (TTerm.singCycleWithInitial init) (hist ++ [now]) =
+      if hist = [] then (evalAt next fuel init [now]).take 1 else (evalAt next fuel next hist).take 1 := by
+  have hc := tickCycle_one_tick_later next fuel hist now hf
+  unfold TTerm.singCycleWithInitial
+  rw [evalAt, hc]
+  cases hist with
+  | nil => simp
+  | cons x xs =>
+    have := hsing (by simp)
+    simp only [reduceCtorEq, if_false] at *
+    cases h : evalAt next fuel next (x :: xs) with
+    | nil => exact absurd h this
+    | cons y ys => simp
+
+/-- the tick cycle of any kind (`Tick::cycle`, Optional or Stream): `create_source(..).defer_tick()` is `TTerm.cyc`,
+    so `tickCycle_one_tick_later` applies verbatim — null / empty in the first tick -/
+example : evalAt (.reduce (fun _ x => x) (.batch 0)) 3 (.chainFirst .cyc (.constS (.int (-1))))
+    [[[.int 4]], [[]], [[.int 6]]] = [.int (-1)] := by
+  simp [evalAt, inBatch]
+
+/-- non-vacuity (the demo of the seeded defect): initial `100` in every tick, each tick sends the first positive item
+    of its batch; ticks `[5] [-7] [9]`: tick 2 reads NULL (tick 1 sent null), not 100 -/
+example : (List.range 3).map (fun i => evalAt
+      (.reduce (fun a _ => a) (.limit 1 (.filter (fun v => match v with | .int i => decide (i > 0) | _ => false) (.batch 0))))
+      3 (TTerm.optCycleWithInitial (.filter (fun _ => true) (.constS (.int 100))))
+      ([[[.int 5]], [[.int (-7)]], [[.int 9]]].take (i + 1)))
+    = [[.int 100], [.int 5], []] := by
+  simp [TTerm.optCycleWithInitial, TTerm.filterIf, TTerm.isSome, TTerm.intoSingleton, evalAt, inBatch, mealyList,
+    limitStep, reduceStep, vSome, vNone, vUnit, vBool, Val.key, List.range, List.range.loop]
+
+/-- contrast: the Singleton shape `from_previous_tick.or(initial)` used for an Optional leaks the initial value into
+    tick 2 -/
+example : evalAt
+      (.reduce (fun a _ => a) (.limit 1 (.filter (fun v => match v with | .int i => decide (i > 0) | _ => false) (.batch 0))))
+      3 (TTerm.singCycleWithInitial (.filter (fun _ => true) (.constS (.int 100))))
+      [[[.int 5]], [[.int (-7)]], [[.int 9]]]
+    = [.int 100] := by
+  simp [TTerm.singCycleWithInitial, evalAt, inBatch, mealyList]
 
 /-! ### lazily deferred data does not schedule a tick
 
